@@ -2,6 +2,10 @@ import S3db.Model.KeySpec
 import S3db.Gen.Key
 import S3db.Lemmas.F64
 import S3db.Lemmas.KeyOrder
+import S3db.Model.Table
+import S3db.Lemmas.TableCells
+import S3db.Model.Facts
+import S3db.Gen.Facts
 /-!
 # C07 — key order is a total order that matches SQLite, and equal keys are one key
 
@@ -67,6 +71,23 @@ theorem ord_trans (a b c : Val) (ha : KeyOK a) (hb : KeyOK b) (hc : KeyOK c) (x 
 /-- a NULL key cannot be ordered: the comparison panics (the callers must reject NULL first) -/
 theorem null_key_panics (b : Val) : ord .null b = none ∧ ord b .null = none := by
   exact ⟨ordV_null_left b, ordV_null_right b⟩
+
+/-- **a second INSERT of a key that addresses a live row is a constraint failure** and leaves the
+    table as it was (the statement model of `Insert`; keys of the table model are the tree's keys,
+    i.e. classes of the order above) -/
+theorem second_insert_refused {K V : Type} [DecidableEq K] [DecidableEq V] (t : Table.Table K V)
+    (when : Int) (k : K) (vals : AList String V) (e : Table.SEntry V)
+    (he : AList.lookup k t = some e) (hl : e.row.deleted = false) :
+    Table.insertRow t when k vals = .error .constraintPK :=
+  (Table.insertRow_error_iff t when k vals).2 ⟨e, he, Or.inl hl⟩
+
+/-- the source facts the refusal rests on: the lookup's error is returned (a failed lookup is never
+    read as "key absent"), the refusal condition is the modelled one, a NULL key is rejected first -/
+theorem insert_lookup_facts :
+    Gen.facts.getRowReturnsLookupError = true ∧ Gen.facts.insertRejectsNullKey = true ∧
+    Gen.facts.insertRefusedCond =
+      "ok && (!old.Deleted || ot.Add(old.DeleteUpdateOffset.AsDuration()).After(t))" := by
+  decide
 
 /-- the F8 witness: beyond 2^53 the integer and the real are different keys -/
 example : ord (.int (2^53 + 1)) (.real (F64.ofBits 0x4340000000000000)) = some 1 := by decide
